@@ -170,7 +170,10 @@ func cmdCheck(args []string) int {
 		return fail("cannot load /repo with harness overlay: " + truncStr(err.Error(), 2000))
 	}
 	ev.Coverage["load_s"] = time.Since(start).Seconds()
-	timeout := 600
+	timeout := 900
+	if *tier == "thorough" {
+		timeout = 3 * 3600
+	}
 	if t, ok := spec.TimeoutS[*tier]; ok {
 		timeout = t
 	}
